@@ -125,6 +125,16 @@ impl<'a> NumberPartsFmt<'a> {
                 'u' => {
                     if let Some(ref unit) = parts.raw_unit {
                         if unit.is_dimensionless() {
+                            // A conversion to a bare constant still
+                            // has its factor: `1 -> 3` is a third of 3.
+                            if let Some(ref f) = parts.factor {
+                                tokens.push(Span::plain("* "));
+                                tokens.push(Span::number(f));
+                            }
+                            if let Some(ref d) = parts.divfactor {
+                                tokens.push(Span::plain(if parts.factor.is_some() { " / " } else { "/ " }));
+                                tokens.push(Span::number(d));
+                            }
                             continue;
                         }
                         let mut frac = vec![];
